@@ -2,6 +2,7 @@ package c18
 
 import (
 	"fmt"
+	"strconv"
 	"strings"
 	"testing"
 
@@ -205,10 +206,47 @@ func nodeGen(depth int) *rapid.Generator[string] {
 
 type HCase struct {
 	HTML string `json:"html"`
+	// Huge, when set, inserts one very large token ("kind:size:position") into HTML when the case
+	// runs: a text run, comment, attribute value, unterminated attribute or raw-text element body
+	// of size bytes. Messages are megabytes; no single construct may be too large to sanitise.
+	Huge string `json:"huge,omitempty"`
+}
+
+func (c HCase) input() string {
+	if c.Huge == "" {
+		return c.HTML
+	}
+	f := strings.SplitN(c.Huge, ":", 3)
+	n, _ := strconv.Atoi(f[1])
+	pos, _ := strconv.Atoi(f[2])
+	fill := strings.Repeat("abcdefg ", n/8+1)[:n]
+	var tok string
+	switch f[0] {
+	case "text":
+		tok = fill
+	case "comment":
+		tok = "<!--" + fill + "-->"
+	case "attr":
+		tok = `<img alt="` + fill + `" src="x">`
+	case "openattr":
+		tok = `<p title="` + fill
+	case "script":
+		tok = "<script>" + fill + "</script>"
+	default:
+		tok = `<a href="http://example.com/` + strings.ReplaceAll(fill, " ", "+") + `">x</a>`
+	}
+	if pos > len(c.HTML) {
+		pos = len(c.HTML)
+	}
+	return c.HTML[:pos] + tok + c.HTML[pos:]
 }
 
 func runHTML(c HCase) *hx.Outcome {
 	o := &hx.Outcome{}
+	if c.Huge != "" {
+		c = HCase{HTML: c.input()}
+		o.Class("one very large token")
+	}
 	out, err := sanitize.HTML(c.HTML)
 	if err != nil {
 		o.Failf(pid+":sanitize-error", "sanitize.HTML failed: %v; input %.300q", err, c.HTML)
@@ -238,7 +276,12 @@ var propHTML = hx.Prop[HCase]{
 		for i := 0; i < n; i++ {
 			sb.WriteString(nodeGen(2).Draw(t, "node"))
 		}
-		return HCase{HTML: sb.String()}
+		c := HCase{HTML: sb.String()}
+		if rapid.IntRange(0, 199).Draw(t, "huge") == 0 {
+			c.Huge = fmt.Sprintf("%s:%d:%d", rapid.SampledFrom([]string{"text", "comment", "attr", "openattr", "script", "href"}).Draw(t, "hkind"),
+				rapid.SampledFrom([]int{4000, 32768, 65536, 70000, 300000}).Draw(t, "hsize"), rapid.SampledFrom([]int{0, 0, 1 << 30}).Draw(t, "hpos"))
+		}
+		return c
 	},
 	Run: runHTML,
 }
